@@ -2,7 +2,7 @@
 //! Every program evaluates one real `matching!(...)` invocation over its whole finite argument domain,
 //! unordered (each_call: mismatch diagnostics off), ordered (next_call: diagnostics on), and a literal
 //! Rust `match` written next to it (the rustc oracle).  Output per program:
-//!   case <k> / U <bits> / O <bits> / R <bits> / --
+//!   case <k> / U <bits> / O <bits> / R <bits> / D <runs of the user Debug impl of S during the unordered evaluations> / --
 #![allow(warnings)]
 mod types;
 mod gen;
@@ -16,7 +16,7 @@ fn main() {
             .collect()
     } else { (0..gen::COUNT).collect() };
     for k in which {
-        let (u, o, r) = gen::run(k);
-        println!("case {k}\nU {u}\nO {o}\nR {r}\n--");
+        let (u, o, r, d) = gen::run(k);
+        println!("case {k}\nU {u}\nO {o}\nR {r}\nD {d}\n--");
     }
 }
